@@ -134,6 +134,9 @@ class C16(Prop):
     def gen(self, r, i, run):
         if r.random() < 0.2:
             extra = [r.choice(STMTS[:3] + STMTS[7:10]).format(p0="argument_parser", p1="argument_parser") for _ in range(r.randint(1, 3))]
+            if r.random() < 0.3:
+                # `.add_argument` on another receiver (an argument group) is an ordinary statement, not an interface entry
+                extra += ["verbosity = argument_parser.add_mutually_exclusive_group()", "verbosity.add_argument('--quiet', action='store_true')"]
             run.dist["family"]["argparse"] += 1
             # the final return: the bare parser, the documented pair, or a tuple of another shape (all carried verbatim)
             ret = r.choice(["return argument_parser", "return argument_parser", "return argument_parser, total",
@@ -217,6 +220,17 @@ class C16(Prop):
         got = [ast.dump(normalise(s)) for s in out.body[1:]]
         if want != ["Pass()"] and got != want:
             fails.append({"what": "function body not carried verbatim", "want": [ast.unparse(s) for s in tree.body[1:]], "got": [ast.unparse(s) for s in out.body[1:]]})
+        # the same description OBJECT through the class emitter (which rewrites names in the body it is given) and then
+        # through the function emitter again: the carried body is still the original one
+        try:
+            ir_shared = copy.deepcopy(ir)
+            self.emit.class_(ir_shared, emit_call=True)
+            again = self.emit.function(ir_shared, function_name="call_peril", function_type="self" if c["method"] else "static", emit_default_doc=False)
+            got2 = [ast.dump(normalise(s)) for s in again.body[1:]]
+            if want != ["Pass()"] and got2 != want:
+                fails.append({"what": "function body not carried verbatim after the same description went through the class emitter", "want": [ast.unparse(s) for s in tree.body[1:]], "got": [ast.unparse(s) for s in again.body[1:]]})
+        except Exception:
+            pass
         # __call__
         try:
             cls = self.emit.class_(copy.deepcopy(ir), emit_call=True)
@@ -266,7 +280,13 @@ class C16(Prop):
             res = []
             for s in body:
                 d = ast.dump(normalise(s))
-                if "add_argument" in d or "description" in d or (isinstance(s, ast.Expr) and isinstance(s.value, ast.Constant)):
+                # (interface statements: `argument_parser.add_argument(...)`, `argument_parser.description = ...`, the docstring;
+                # `.add_argument` on any other receiver is an ordinary statement)
+                if isinstance(s, ast.Expr) and isinstance(s.value, ast.Call) and ast.unparse(s.value.func) == "argument_parser.add_argument":
+                    continue
+                if isinstance(s, ast.Assign) and ast.unparse(s.targets[0]) == "argument_parser.description":
+                    continue
+                if isinstance(s, ast.Expr) and isinstance(s.value, ast.Constant):
                     continue
                 res.append(d)
             return res
